@@ -315,10 +315,28 @@ func c20Mautil(c *Ctx) {
 			c.Unk("C20.X4-helper-predicates", "mautil.FindHTTPAddrs", token.NoPos, "predicate handed to FilterAddrs not found")
 		} else {
 			consts := map[string]bool{}
-			instrsDeep(pred, func(_ *ssa.Function, in ssa.Instruction) {
+			// …and the code tested is that of every component in turn: the comparison sits in a loop over all of the
+			// address's protocols (or components), or in a callback run for each — an address "contains" http wherever
+			// in it the component stands (a path, a peer ID or the like may follow it)
+			everyComponent := true
+			instrsDeep(pred, func(g *ssa.Function, in ssa.Instruction) {
 				if bo, ok := in.(*ssa.BinOp); ok && bo.Op == token.EQL {
 					if x := c.E(bo.X); x.Op == "field" && x.Name == "Code" {
 						consts[c.E(bo.Y).Name] = true
+						inAll := g != pred // a per-component callback
+						for _, l := range naturalLoops(g) {
+							if !l.Body[bo.Block()] {
+								continue
+							}
+							for _, s := range c.rangedOver(l) {
+								if s.Op == "param" || (s.Op == "call" && nameMatches(s.Name, "Multiaddr).Protocols")) || (s.Op == "invoke" && strings.HasSuffix(s.Name, "Protocols")) {
+									inAll = true
+								}
+							}
+						}
+						if !inAll {
+							everyComponent = false
+						}
 					}
 				}
 			})
@@ -348,6 +366,7 @@ func c20Mautil(c *Ctx) {
 			c.Check(len(consts) == 2 && consts[code("P_HTTP")] && consts[code("P_HTTPS")] && trueUnderNonNil, "C20.X4-helper-predicates", f.Name+" › selects http/https", f.SSA.Pos(), "keeps an address iff it is non-nil and has a protocol with code http or https", "HTTP-address selection does not test exactly the http and https codes on non-nil addresses")
 			_, viaFilter := Match(Call("go-multiaddr.FilterAddrs", Op("param", "")), firstRetAny(c, f))
 			c.Check(viaFilter, "C20.X4-helper-predicates", f.Name+" › filters its argument", f.SSA.Pos(), "result = FilterAddrs(argument, predicate)", "result is not the filtered argument list")
+			c.Check(everyComponent && len(consts) > 0, "C20.X4-helper-predicates", f.Name+" › looks at every component", f.SSA.Pos(), "the http/https test is made for each protocol of the address in turn", "the http/https test is made on one component only (the last, the first): addresses with http followed by a path or peer ID component are not selected")
 		}
 	} else {
 		c.Unk("C20.X4-helper-predicates", "mautil.FindHTTPAddrs", token.NoPos, "not found")
@@ -502,7 +521,7 @@ func c20Mautil(c *Ctx) {
 	} else {
 		c.Unk("C20.X4-helper-predicates", "mautil.MultiaddrsEqual", token.NoPos, "not found")
 	}
-	c.Floor("C20.X4-helper-predicates", 7)
+	c.Floor("C20.X4-helper-predicates", 8)
 }
 
 func firstRetAny(c *Ctx, f *Fn) *X {
